@@ -95,11 +95,21 @@ def single_ops(ctx, doc):
                 ops.append({"op": "test", "path": s, "value": v})
         except Exception:  # noqa: BLE001
             ops.append({"op": "test", "path": s, "value": 1})
-    pairs = [(a, b) for a in ps for b in ps]
-    if quick and len(pairs) > 250:
-        pairs = ctx.rng.sample(pairs, 250)
-    elif len(pairs) > 3000:
-        pairs = ctx.rng.sample(pairs, 3000)
+    # move/copy: most pairs are (existing source, plausible destination); the rest arbitrary
+    locs = list(G.locations(doc))
+    good_src = [[str(x) for x in t] for t, _ in locs]
+    good_dst = list(good_src)
+    for toks, val in locs:
+        if isinstance(val, list):
+            good_dst += [[str(x) for x in toks] + [e] for e in ("-", str(len(val)), "0")]
+        elif isinstance(val, dict):
+            good_dst += [[str(x) for x in toks] + [e] for e in ("new", "1", "")]
+    pairs = [(a, b) for a in good_src for b in good_dst]
+    budget = 250 if quick else 3000
+    if len(pairs) > budget:
+        pairs = ctx.rng.sample(pairs, budget)
+    arb = [(ctx.rng.choice(ps), ctx.rng.choice(ps)) for _ in range(budget // 3)]
+    pairs += arb
     for a, b in pairs:
         ops.append({"op": "move", "from": G.rfc6901_spell(a), "path": G.rfc6901_spell(b)})
         ops.append({"op": "copy", "from": G.rfc6901_spell(a), "path": G.rfc6901_spell(b)})
